@@ -1,6 +1,6 @@
 #!/bin/bash
 # run every stored seed against the check of its property (scratch worktrees; nothing applied to /repo)
-cd /verif
+cd "$(dirname "$0")/.."
 for d in seeded/C*/; do
   s=$(basename $d); p=${s%-*}
   out=$(timeout 900 tools/seedcheck.sh $d $p 2>&1)
